@@ -28,6 +28,10 @@ pub struct Case {
     pub enumerate: bool,
     #[serde(default)]
     pub only_placement: Option<usize>,
+    /// kernel back-end: the kernel notices a racing rename and answers EAGAIN to the
+    /// next n openat2 calls after the (first) mutation was applied
+    #[serde(default)]
+    pub eagain_burst: u8,
 }
 
 /// Extra links whose bodies climb with '..' towards names that also exist
@@ -64,7 +68,7 @@ fn add_traps(tree: &mut TreeSpec, traps: &[(u16, u8, u8)]) -> Vec<B> {
 pub fn strategy() -> impl Strategy<Value = Case> {
     (
         tree_recipe(12),
-        prop_oneof![1 => Just(Kcfg::NoMountApi), 4 => Just(Kcfg::NoOpenat2NoMountApi), 1 => Just(Kcfg::NoOpenat2)],
+        prop_oneof![2 => Just(Kcfg::NoMountApi), 4 => Just(Kcfg::NoOpenat2NoMountApi), 1 => Just(Kcfg::NoOpenat2)],
         prop_oneof![8 => Just(false), 1 => Just(true)],
         path_recipe(),
         lop_recipe(),
@@ -75,8 +79,9 @@ pub fn strategy() -> impl Strategy<Value = Case> {
         ],
         vec((any::<u16>(), any::<u8>(), any::<u8>()), 0..3),
         (any::<u16>(), 0u8..5, any::<u8>()),
+        prop_oneof![3 => Just(0u8), 1 => Just(1u8), 2 => Just(16u8), 1 => Just(17u8), 1 => Just(33u8)],
     )
-        .prop_map(|(tr, kcfg, no_symlinks, p, o, capi, (enumerate, muts), traps, (lsel, lmode, suffix))| {
+        .prop_map(|(tr, kcfg, no_symlinks, p, o, capi, (enumerate, muts), traps, (lsel, lmode, suffix), burst)| {
             let mut tree = build_tree(&tr);
             let made = add_traps(&mut tree, &traps);
             let mut op = make_lookup(&tree, &p, &o);
@@ -105,13 +110,18 @@ pub fn strategy() -> impl Strategy<Value = Case> {
             // while that directory is moved out of the root (to the stash or to the
             // sibling whose name reads "<root> (deleted)")
             let (mut muts, mut enumerate) = (muts, enumerate);
+            let mut climb_burst: Option<u8> = None;
             if lmode == 4 {
                 let tops: Vec<B> = tree.dirs().into_iter().filter(|d| !d.0.is_empty() && !d.0.contains(&b'/')).collect();
                 if !tops.is_empty() {
                     let d = tops[pick(lsel, tops.len())].clone();
                     let mut path = d.join(b"..");
-                    if suffix & 1 == 1 {
-                        path = path.join(ALPHA[suffix as usize / 2 % ALPHA.len()].as_bytes());
+                    match suffix % 4 {
+                        1 => path = path.join(ALPHA[suffix as usize / 4 % ALPHA.len()].as_bytes()),
+                        // one or two more '..' than there are directories to leave
+                        2 => path = path.join(b".."),
+                        3 => path = d.join(ALPHA[suffix as usize / 4 % ALPHA.len()].as_bytes()).join(b"../../.."),
+                        _ => {}
                     }
                     op = match op {
                         Op::Readlink { .. } => Op::ResolveNofollow { path },
@@ -119,11 +129,16 @@ pub fn strategy() -> impl Strategy<Value = Case> {
                         Op::Open { .. } => Op::Open { path, flags: libc::O_RDONLY | libc::O_DIRECTORY },
                         _ => Op::Resolve { path },
                     };
-                    muts = vec![(0u16, MutRecipe { kind: MutKind::MoveOut, target: suffix as u16 * 257, parent: false, restore_after: if suffix & 2 == 2 { 1 } else { 0 } })];
+                    muts = vec![(0u16, MutRecipe { kind: MutKind::MoveOut, target: suffix as u16 * 257, parent: false, restore_after: if suffix & 8 == 8 { 1 } else { 0 } })];
                     enumerate = true;
+                    climb_burst = Some(if suffix & 16 == 16 { 16 } else { 17 });
                 }
             }
-            Case { tree, kcfg, no_symlinks, lookup: Lookup { op, capi: capi && !no_symlinks }, muts, enumerate, only_placement: None }
+            let burst = match climb_burst {
+                Some(b) if lsel & 1 == 1 => b,
+                _ => burst,
+            };
+            Case { tree, kcfg, no_symlinks, lookup: Lookup { op, capi: capi && !no_symlinks }, muts, enumerate, only_placement: None, eagain_burst: if kcfg.has_openat2() { burst } else { 0 } }
         })
 }
 
@@ -169,6 +184,8 @@ fn run_once(sb: &Sandbox, case: &Case, plan: Vec<(usize, Mutation)>, restore_at:
     let root_snap = Snapshot::take_path(&sb.root());
     let state = Arc::new(Mutex::new(AttackState { attacker: Attacker::new(sb), plan: plan.clone(), restore_at }));
     let st2 = state.clone();
+    let burst = case.eagain_burst as usize;
+    let mut eagain_left: Option<usize> = None;
     let hook: Hook = Box::new(move |sys: &Sys, _c: &mut CallRec| {
         let mut st = st2.lock().unwrap();
         let idx = sys.idx;
@@ -176,8 +193,20 @@ fn run_once(sb: &Sandbox, case: &Case, plan: Vec<(usize, Mutation)>, restore_at:
         if st.restore_at.contains(&idx) {
             st.attacker.restore_last();
         }
+        let applied_now = !todo.is_empty();
         for m in todo {
             st.attacker.apply(&m);
+        }
+        if applied_now && burst > 0 && eagain_left.is_none() {
+            eagain_left = Some(burst);
+        }
+        if sys.name == "openat2" {
+            if let Some(n) = eagain_left.as_mut() {
+                if *n > 0 {
+                    *n -= 1;
+                    return Action::Errno(libc::EAGAIN);
+                }
+            }
         }
         Action::Continue
     });
@@ -334,6 +363,9 @@ pub fn judge(case: &Case, rep: &Report, stats: &mut Stats) -> Result<(), Fail> {
     }
     stats.count("cases", 1);
     stats.class(&format!("backend:{}", backend(case.kcfg)));
+    if case.eagain_burst > 0 {
+        stats.class(&format!("kernel-answers-EAGAIN-x{}", case.eagain_burst));
+    }
     stats.class(&format!("baseline:{}", rep.baseline.class()));
     stats.count("placement_points_total", rep.placement_points as u64);
     stats.count("placements_skipped_by_work_bound", rep.skipped_placements as u64);
@@ -413,7 +445,7 @@ fn replay(_ctx: &Ctx, _check: &str, case: &Value) -> Result<(), Fail> {
 pub const PROP: Prop = Prop {
     id: "C02",
     level: "exploration",
-    rule: "generated tree x lookup (resolve, resolve_nofollow, readlink, open_subpath; Rust and C API) x backend x attacker schedule. The lookup is first traced without attack; the mutation targets are drawn from the entries the lookup touched by name (and their parents); for a single mutation EVERY placement point of the trace (each syscall about to act on a tree inode or to read a descriptor's kernel path) is enumerated, one run per placement on a freshly built tree, optionally with a flip-flop restore k points later; multi-mutation schedules (2-4) are sampled. Mutations: move out of the root, RENAME_EXCHANGE with a fresh directory / a symlink to an outside directory or file / a symlink to '..'-chains / a file, replace by a link to the outside, remove, swap with a sibling, rename the root. The supervisor applies them while the library thread is parked, and unions the root's snapshot before and after every mutation into the ever-inside set. Oracle: a returned descriptor's (dev,ino) is in the ever-inside set; a returned link body is the body of an ever-inside link; no panic; descriptor table intact. evaluations = attacked runs; non-trivial = a mutation was applied and the lookup has a '..' or link step; distinct by (tree, lookup, kcfg, placements, mutations)",
+    rule: "generated tree x lookup (resolve, resolve_nofollow, readlink, open_subpath; Rust and C API) x backend x attacker schedule (on the kernel back-end optionally followed by the kernel answering EAGAIN to the next 1 / 16 / 17 / 33 openat2 calls, as it does when it notices the race). The lookup is first traced without attack; the mutation targets are drawn from the entries the lookup touched by name (and their parents); for a single mutation EVERY placement point of the trace (each syscall about to act on a tree inode or to read a descriptor's kernel path) is enumerated, one run per placement on a freshly built tree, optionally with a flip-flop restore k points later; multi-mutation schedules (2-4) are sampled. Mutations: move out of the root, RENAME_EXCHANGE with a fresh directory / a symlink to an outside directory or file / a symlink to '..'-chains / a file, replace by a link to the outside, remove, swap with a sibling, rename the root. The supervisor applies them while the library thread is parked, and unions the root's snapshot before and after every mutation into the ever-inside set. Oracle: a returned descriptor's (dev,ino) is in the ever-inside set; a returned link body is the body of an ever-inside link; no panic; descriptor table intact. evaluations = attacked runs; non-trivial = a mutation was applied and the lookup has a '..' or link step; distinct by (tree, lookup, kcfg, placements, mutations)",
     assumptions: &[
         "pre-emption granularity is the library's own system calls; races inside a single openat2 are only covered by the thorough-tier stress run",
         "placement points are the syscalls touching tree inodes or fd magic-links; descriptor-local calls (close, fcntl, fstatfs) commute with tree mutations",
